@@ -16,7 +16,9 @@ CHECKS = [
              "level: open / check over a list of polynomials on the threaded transcript, the default batch and combination functions instantiated "
              "with them; theorems C01_lincode_list_complete, C01_lincode_batch_complete and, for ANY scheme, C01_default_batch_complete; all their "
              "single / batch / combination flows are compared with the library. Hyrax, IPA and PST13 batch and combination flows are modelled and "
-             "compared as well (C05, C06)."},
+             "compared as well (C05, C06); end-to-end batch and combination completeness theorems exist for Marlin, Sonic, IPA, PST13, Hyrax and the linear "
+             "codes. The streaming-KZG scenarios of C14 (time and space provers, multi-point batches of polynomials of different lengths) are part of "
+             "this check's run too."},
     {"property_id": "C16",
      "text": "Coq theorems (unbounded): every LinearCombination operator and every operator sequence acts on values as the corresponding arithmetic; "
              "evaluate_query_set maps exactly the queried (label, point) keys to the polynomial's value; SuccinctCheckPolynomial::evaluate equals Horner "
@@ -74,7 +76,9 @@ CHECKS += [
              "degenerate; derived column positions are < n, one per squeeze, and the byte fold cannot overflow; Reed-Solomon encoding is linear of "
              "the declared length. Correspondence: the library's f64 calculate_t (hook) against the exact model on a grid of (lambda, distance, n, "
              "field); get_indices_from_sponge against the model on the squeezed bytes; reed_solomon against evaluation on the domain; honest "
-             "Ligero/Brakedown proofs open exactly t columns at the transcript-derived positions.",
+             "Ligero/Brakedown proofs open exactly t columns at the transcript-derived positions. The width of the squeezed blocks is covered too: "
+             "256^(get_num_bytes n) >= n, and a block of k bytes with 256^k < n never yields a position from 256^k on (theorems), with an oracle "
+             "that every squeezed block is wide enough for the codeword length.",
      "note": COMMON_NOTE + " f64 log2/powi/ceil are not modelled: the exact function is the model and the correspondence decides whether the code "
              "computes it; the comparator accepts the exact minimum for |F| or for 2^bits (the code divides by 2^MODULUS_BIT_SIZE; they differ only in a "
              "thin band next to infeasibility). Brakedown's sparse encoder is checked for linearity and length on the implementation only."},
@@ -255,7 +259,8 @@ CHECKS += [
              "identity - returns the value of the sequential loop for every split plan (the build without the parallel feature is the plan "
              "Seq); instantiated for multi-scalar sums (exact field arithmetic: re-association cannot change the result), PST13's per-monomial "
              "setup map and the per-row work of the matrix schemes. Checked at run time: the scenarios of C01 (all 8 schemes, honest transcripts "
-             "with seeded commit/check RNGs), the size ladder of C19 (up to 2^12 coefficients), PST13 setup, streaming KZG and the C08 flows "
+             "with seeded commit/check RNGs), the size ladder of C19 (up to 2^12 coefficients) and, at both tiers, every scheme once per round at "
+             "the top of that ladder (256 and more coefficients, where chunked loops split their work), PST13 setup, streaming KZG and the C08 flows "
              "run in the harness under RAYON_NUM_THREADS = 1, 2, 3, 8, 16 (16 repeated five times in the thorough tier) and in a harness built "
              "with --no-default-features (no rayon); every observable and every byte the harness prints (keys, commitments, states, proofs, "
              "decisions, sizes) must equal the reference run, which itself is compared with the deterministic extracted model; SHA-256 digests "
